@@ -472,6 +472,16 @@ pub fn declared_count(count: usize, available_bytes: usize) -> usize {
   count
 }
 
+// A matrix payload declares rows x cols elements: neither may be zero (the column
+// loop would otherwise spin through up to 2^32 empty iterations before the matrix
+// constructor rejects the shape) and the product is bounded like any other count.
+pub fn declared_shape(rows: usize, cols: usize, available_bytes: usize) -> usize {
+  if rows == 0 || cols == 0 {
+    panic!("Cannot create Matrix with zero rows or columns");
+  }
+  declared_count(rows.saturating_mul(cols), available_bytes)
+}
+
 pub trait ConstElem {
   fn write_le(&self, out: &mut Vec<u8>);
   fn from_le(bytes: &[u8]) -> Self;
@@ -668,7 +678,7 @@ macro_rules! impl_const_elem_matrix {
         let mut cursor = Cursor::new(bytes);
         let rows = cursor.read_u32::<LittleEndian>().unwrap() as usize;
         let cols = cursor.read_u32::<LittleEndian>().unwrap() as usize;
-        let mut elements: Vec<T> = Vec::with_capacity(declared_count(rows.saturating_mul(cols), bytes.len()));
+        let mut elements: Vec<T> = Vec::with_capacity(declared_shape(rows, cols, bytes.len()));
 
         // Read in column-major order
         for _c in 0..cols {
@@ -708,7 +718,7 @@ where
     let mut cursor = Cursor::new(bytes);
     let rows = cursor.read_u32::<LittleEndian>().unwrap() as usize;
     let cols = cursor.read_u32::<LittleEndian>().unwrap() as usize;
-    let mut elements = Vec::with_capacity(declared_count(rows.saturating_mul(cols), bytes.len()));
+    let mut elements = Vec::with_capacity(declared_shape(rows, cols, bytes.len()));
     // Read in column-major order
     for _c in 0..cols {
       for _r in 0..rows {
@@ -743,7 +753,7 @@ where
     let mut cursor = Cursor::new(bytes);
     let rows = cursor.read_u32::<LittleEndian>().unwrap() as usize;
     let cols = cursor.read_u32::<LittleEndian>().unwrap() as usize;
-    let mut elements = Vec::with_capacity(declared_count(rows.saturating_mul(cols), bytes.len()));
+    let mut elements = Vec::with_capacity(declared_shape(rows, cols, bytes.len()));
     // Read in column-major order
     for _c in 0..cols {
       for _r in 0..rows {
@@ -778,7 +788,7 @@ where
     let mut cursor = Cursor::new(bytes);
     let rows = cursor.read_u32::<LittleEndian>().unwrap() as usize;
     let cols = cursor.read_u32::<LittleEndian>().unwrap() as usize;
-    let mut elements = Vec::with_capacity(declared_count(rows.saturating_mul(cols), bytes.len()));
+    let mut elements = Vec::with_capacity(declared_shape(rows, cols, bytes.len()));
     // Read in column-major order
     for _c in 0..cols {
       for _r in 0..rows {
@@ -863,7 +873,7 @@ where
     let mut cursor = Cursor::new(bytes);
     let rows = cursor.read_u32::<LittleEndian>().unwrap() as usize;
     let cols = cursor.read_u32::<LittleEndian>().unwrap() as usize;
-    let mut elements = Vec::with_capacity(declared_count(rows.saturating_mul(cols), bytes.len()));
+    let mut elements = Vec::with_capacity(declared_shape(rows, cols, bytes.len()));
     // Read in column-major order
     for _c in 0..cols {
       for _r in 0..rows {
